@@ -1,15 +1,21 @@
 /-
 Props/C25 — jq value identities, as theorems over the value-level functions of Model/JqValue.lean
-(the functions the evaluator's builtins call). `N` is an arbitrary number carrier.
+(the functions the evaluator's builtins call). `N` is an arbitrary number carrier; theorems that need
+properties of numbers assume `LawfulNum N` (order laws of the carrier, integers index exactly).
+Values are duplicate-free (`JV.WF`) where object keys matter.
 
-Proved in full: the cross-kind part of jq's order (`cmp_rank_lt`, `cmp_kind_chain`), `sort` returns
-a permutation (`sort_perm`) which is ordered for every comparator that is total and transitive
-(`sortBy_sorted`), `unique` output has no two adjacent equal elements (`unique_no_adjacent_dup`),
-object field write/read laws and the one-step `setpath`/`getpath` laws on objects
-(`getpath_setpath_field`, `setpath_getpath_id_field`, `setpath_frame_field`), `to_from_entries` for
-duplicate-free objects. Not proved here (checked by the C25 correspondence on generated values and
-every path instead): totality/transitivity of `JV.cmp` on objects, the multi-step path laws,
-`tojson|fromjson`, `tostream|fromstream`, `@base64|@base64d`, `@uri` decode.
+Proved in full:
+* `cmp_total_order` (+ `cmp_refl/cmp_swap/cmp_trans`, `cmp_kind_chain`, `cmp_arr_cons`): jq's order is
+  a total preorder on all duplicate-free values (Proof/JqOrder.lean);
+* `sort_sorted_perm`, `unique_dedup_sorted`;
+* `getpath_defined`, `setpath_getpath_id`, `getpath_setpath`, `setpath_frame` for every `p ∈ paths v`
+  (Proof/JqPaths.lean), and the one-step object versions;
+* `to_from_entries` for duplicate-free objects;
+* `base64_round_trip`, `uri_round_trip` for all byte strings (Proof/JqCodec.lean).
+Not proved here (evaluated by the C25 correspondence on generated values instead):
+`tojson_fromjson` (printer/reader round trip over the carrier's print/parse law),
+`tostream_fromstream`, and "`cmp a b = eq` iff `eqv a b`" (antisymmetry is proved in the form
+`cmp b a = (cmp a b).swap`).
 -/
 import SuccinctlyVerif.Model.Jq
 import SuccinctlyVerif.Proof.JqOrder
